@@ -133,6 +133,13 @@ func (c context) findVariable(name string, prefix string, global bool) (Variable
 		return Variable{}, false
 	}
 	variable, exists := c.variables[prefixedName]
+
+	// Within functions and blocks, the globals of the own file (which are stored with the file's prefix) are visible, too.
+	if !exists && !global {
+		if prefixedName, err = c.buildPrefixedName(name, prefix, true, true); err == nil {
+			variable, exists = c.variables[prefixedName]
+		}
+	}
 	return variable, exists
 }
 
